@@ -198,7 +198,16 @@ class PhaseHistory(Unit):
     props = ("C16",)
 
     def opts(self, cfg):
-        return {"isinstance": _isinstance}
+        # a delay distribution is an opaque leaf here; its quantile (the constructors' default expected delay) is an uninterpreted non-negative real
+        def leaf_attr(ex, o, attr):
+            if attr == "quantile":
+                def q(ex_, p):
+                    v = z3.Function("dist_quantile", Leaf, REAL, REAL)(o, toz(p) if is_sym(p) else z3.RealVal(str(p)))
+                    ex_.assume(v >= 0)
+                    return v
+                return q
+            return None
+        return {"isinstance": _isinstance, "leaf_attr": leaf_attr}
 
     def summaries(self, cfg):
         return {("StaticDist", "create"): _create}
